@@ -317,10 +317,22 @@ impl Facts {
         frames.push(Vec::new());
     }
 
-    /// Commit (discard) the top-most undo frame
+    /// Commit the top-most undo frame: its changes are kept. If an enclosing
+    /// frame is still open, the previous values recorded by the committed frame
+    /// are handed to it, so that rolling back the enclosing frame still restores
+    /// every key this frame touched.
     pub fn commit_undo_frame(&self) {
         let mut frames = self.undo_frames.write().unwrap();
-        frames.pop();
+        if let Some(frame) = frames.pop() {
+            if let Some(parent) = frames.last_mut() {
+                for entry in frame {
+                    // The parent's own entry (if any) is older and wins.
+                    if !parent.iter().any(|e| e.key == entry.key) {
+                        parent.push(entry);
+                    }
+                }
+            }
+        }
     }
 
     /// Rollback the top-most undo frame, restoring prior values
